@@ -4,6 +4,7 @@ use std::io::{BufRead, Write};
 
 mod util;
 mod findrun;
+mod globrun;
 mod xread;
 mod xrun;
 
@@ -68,6 +69,7 @@ fn main() {
             "xread" => xread::handle(&rest),
             "xrun" => xrun::handle(&rest),
             "find" => findrun::handle(&rest),
+            "glob" => globrun::handle(&rest),
             _ => "badcase".to_string(),
         });
         let res = res.unwrap_or_else(|_| "panic".to_string());
